@@ -834,7 +834,7 @@ peg::parser! {
         rule double_quoted_word_piece() -> WordPiece =
             arithmetic_expansion() /
             legacy_arithmetic_expansion() /
-            command_substitution() /
+            double_quoted_command_substitution() /
             parameter_expansion() /
             double_quoted_escape_sequence() /
             double_quoted_text()
@@ -1129,6 +1129,18 @@ peg::parser! {
             word_piece(<[')']>, true /*in_command*/) {} /
             ([' ' | '\t'])+ {} /
             ['\'' | '`'] {}
+
+        // N.B. Within double quotes, a backslash inside backquotes additionally escapes a
+        // double quote (e.g., "`printf %s \"$x\"`").
+        rule double_quoted_command_substitution() -> WordPiece =
+            "$(" c:command() ")" { WordPiece::CommandSubstitution(c.to_owned()) } /
+            "`" chars:(double_quoted_backquoted_char()*) "`" {
+                WordPiece::BackquotedCommandSubstitution(chars.into_iter().collect())
+            }
+
+        rule double_quoted_backquoted_char() -> &'input str =
+            "\\\"" { "\"" } /
+            backquoted_char()
 
         rule backquoted_command() -> String =
             chars:(backquoted_char()*) { chars.into_iter().collect() }
